@@ -1,4 +1,5 @@
 import Ccp.Proofs.IosMore
+import Ccp.Model.FactoryGuard
 /-!
 # C19 — typed IOS interface / route models report what the text says; factory transparent
 
@@ -252,6 +253,55 @@ theorem factory_transparent (cfg : Cfg) (ls : List Str) :
     ∀ p, children (treeOf true cfg ls) p = children (treeOf false cfg ls) p :=
   ⟨rfl, rfl, rfl, fun _ => rfl⟩
 
+/-! ## accessors and entry checks reached since the coverage pass -/
+
+/-- **`port`** of `interface <name>` (one-word name): the described port number — the third component of
+`ordinal_list_roundtrip` -/
+theorem port_roundtrip (d : Intf.Intf) (h : C15.WellFormed d) :
+    ∃ s, Intf.render d = .ok s ∧ (Word s → port (line [] [kInterface, s]) = some (Int.ofNat d.port)) := by
+  obtain ⟨s, hr, ho⟩ := ordinal_list_roundtrip d h
+  refine ⟨s, hr, fun hs => ?_⟩
+  unfold port
+  rw [ho hs]
+
+/-- **`nexthop_str`, `address_family`** of a described route: the interface and the next hop joined by one blank
+(the blank stays when there is no next-hop address), or the bare next hop; the family is `ip`; `nexthop_vrf` and
+`unicast` raise (ValueError / NotImplementedError) for every `ip route` object -/
+theorem route_nexthop_str_roundtrip (d : RouteDesc) (hv : d.Valid) (h : d.intf ≠ none ∨ d.nh ≠ none) :
+    ∃ r, routeParse (line [] d.words) = some r ∧
+      r.addressFamily = "ip".toList ∧
+      r.nexthopStr = (match d.intf with
+        | some i => i ++ ' ' :: d.nh.getD []
+        | none => d.nh.getD []) ∧
+      r.nexthopVrf = .error .valueError ∧ r.unicast = .error .notImplementedError := by
+  refine ⟨d.expected, (route_roundtrip d hv h).2, rfl, ?_, rfl, rfl⟩
+  obtain ⟨hvrf, hp, hps, hm, hintf, hnh, hname, hpt⟩ := hv
+  obtain ⟨vrf, p, m, intf, nh, glob, ad, name, perm, track, tag⟩ := d
+  cases intf with
+  | none => simp [Route.nexthopStr, Route.nextHopInterface, Route.nextHopAddr, RouteDesc.expected]
+  | some i =>
+    have hi := hintf i rfl
+    have hne : i ≠ [] := by
+      intro e; subst e
+      exact absurd hi (by unfold IntfWord; simp [Word])
+    simp [Route.nexthopStr, Route.nextHopInterface, Route.nextHopAddr, RouteDesc.expected, hne]
+
+open Ccp.Factory in
+/-- **What `config_line_factory` accepts** (its argument checks, in source order, `Ccp.Factory.argCheck`): the class
+walk is reached iff `all_lines` is a list, `line` a str, `comment_delimiters` None or a list, `debug` an int and
+`syntax` one of `ALL_VALID_SYNTAX` (regenerated table) -/
+theorem factory_guard_spec (a : Args) :
+    argCheck a = none ↔
+      (a.allLinesIsList = true ∧ a.lineIsStr = true ∧ a.delims ≠ some false ∧ a.debugIsInt = true ∧
+       validSyntax a.syn = true) := by
+  obtain ⟨al, ln, ds, syn, dbg⟩ := a
+  have hnone : validSyntax none = false := rfl
+  cases syn with
+  | none => cases al <;> cases ln <;> cases dbg <;> rcases ds with _ | _ | _ <;> simp [argCheck, hnone]
+  | some v =>
+    cases hv : validSyntax (some v) <;> cases al <;> cases ln <;> cases dbg <;> rcases ds with _ | _ | _ <;>
+      simp [argCheck, hv]
+
 /-! ## non-vacuity -/
 
 def exCfg : Cfg := { ios := true, delims := ['!'], ignoreBlank := false }
@@ -308,5 +358,16 @@ example : (routeParse (line [] exRoute.words)).map (fun r => (r.adminDistance, r
 -- the whitespace quirk the model mirrors: two blanks before the next hop make it the "interface"
 example : (routeParse "ip route 10.0.0.0 255.0.0.0  1.1.1.1".toList).map (fun r => (r.nextHopInterface, r.nextHopAddr)) =
     some (" 1.1.1.1".toList, []) := by decide +kernel
+
+-- the new accessors on concrete inputs
+example : port "interface Serial4/1/2.9:5".toList = some 2 ∧ port " interface Gi0/1".toList = none := by decide +kernel
+example : (routeParse (line [] exRoute.words)).map (fun r => (r.addressFamily, r.nexthopStr)) =
+    some ("ip".toList, "GigabitEthernet0/1 1.1.1.1".toList) := by decide +kernel
+example : (routeParse "ip route 10.0.0.0 255.0.0.0 Null0".toList).map Route.nexthopStr = some "Null0 ".toList := by decide +kernel
+-- `factory_guard_spec`: an accepted call and the three rejection classes
+example : Factory.argCheck ⟨true, true, none, some "nxos".toList, true⟩ = none ∧
+    Factory.argCheck ⟨true, true, none, some "foo".toList, true⟩ = some .notImplementedError ∧
+    Factory.argCheck ⟨true, true, some true, some "foo".toList, true⟩ = some .valueError ∧
+    Factory.argCheck ⟨true, false, some true, some "ios".toList, true⟩ = some .invalidParameters := by decide +kernel
 
 end Ccp.C19
